@@ -2046,7 +2046,7 @@ class PPEnumFieldType(FieldType):
     ) -> ([CHText.Chunk], int):
         """value -> desired text and alignment"""
 
-        cache_key = id(field_palette)  # need to maintain separate caches
+        cache_key = field_palette  # need to maintain separate caches
                             # enum_value -> CTHText for different palettes
         # prepare and cache cell text for a enum value
         # cache is prepared for all supported format modifiers
